@@ -157,6 +157,11 @@ def analyse_kernel(job):
         for be in build.BACKENDS:
             runs, bad = tv.validate_paths(L[be], kidx, traps, side, max_paths=4 if tier == "quick" else 10)
             res["validation"].append({"backend": be, "runs": runs, "mismatches": bad})
+            bi = tv.boundary_inputs(k, quick=tier == "quick")
+            if bi:
+                runs, bad = tv.validate_inputs(L[be], kidx, traps, bi, side)
+                res["validation"].append({"backend": be, "runs": runs, "mismatches": bad, "kind": "float boundary values"})
+                res["boundary_runs"] = res.get("boundary_runs", 0) + runs
     except Unsupported as e:
         res["status"] = "unsupported"
         res["reason"] = str(e)
@@ -442,7 +447,7 @@ def run_check(tier):
         "mnemonics_executed": sorted(mnemonics),
         "known_findings_hit": [k for k, _ in rep.known_hit],
         "outside_the_claim": ["every runnable program shipped in the repository", "Rust natives", "wire format of the optimizing compiler",
-                              "arm64 output", "floating point", "calls, classes, closures, strings",
+                              "arm64 output", "floating point arithmetic and comparisons; only float<->int conversions are covered", "calls, classes, closures, strings",
                               "shift-count hazard (decided against the reference in C01)"],
     }
     common.write_evidence(PID, tier, "translation_validation", cov, assumptions, time.time() - t0, violations=len(rep.new))
